@@ -1,0 +1,32 @@
+//go:build verif
+
+package file
+
+// Contracts for gocv (see /verif/DESIGN.md). Comment-only file.
+
+//@ package file
+//@ import ocispec "github.com/opencontainers/image-spec/specs-go/v1"
+//@ import descriptor "oras.land/oras-go/v2/internal/descriptor"
+//@ import graph "oras.land/oras-go/v2/internal/graph"
+//@
+//@ pure fileStoreRI(s *Store) bool = s != nil && s.graph != nil && alive(s.graph) && graphRI(s.graph)
+//@
+//@ func (*Store).push
+//@   trusted
+//@   ensures [skip-only-unnamed] errors.Is(result, errSkipUnnamed) ==> s.IgnoreNoName && lookup(expected.Annotations, ocispec.AnnotationTitle) == ""
+//@   modifies alloc, elems[byte], ghost.matched, ghost.atEOF, ghost.digestOK, ghost.delivered, ghost.pushes, ghost.lastPush, ghost.present
+//@ func (*Store).restoreDuplicates
+//@   trusted
+//@   modifies alloc, elems[byte]
+//@
+//@ func (*Store).Push
+//@   requires [ri] fileStoreRI(s)
+//@   ensures [C07:indexed-after-stored] result == nil && !(s.IgnoreNoName && lookup(expected.Annotations, ocispec.AnnotationTitle) == "") ==> K(expected) in s.graph.nodes
+//@   ensures [C07:ri] fileStoreRI(s) && s.graph == old(s.graph)
+//@
+//@ func (*Store).Predecessors
+//@   requires [ri] fileStoreRI(s)
+//@   ensures [C07:exact-members] result1 == nil ==> (forall i int :: 0 <= i && i < len(result0) ==> inPreds(s.graph, K(node), predKey(i)) && result0[i] == s.graph.nodes[predKey(i)])
+//@   ensures [C07:exact-once] result1 == nil ==> (forall i, j int :: 0 <= i && i < j && j < len(result0) ==> predKey(i) != predKey(j))
+//@   ensures [C07:exact-complete] result1 == nil ==> (forall k descriptor.Descriptor :: inPreds(s.graph, K(node), k) ==> (exists i int :: 0 <= i && i < len(result0) && predKey(i) == k))
+//@   ensures [C07:closed-only-error] result1 != nil ==> result1 == ErrStoreClosed
